@@ -16,6 +16,12 @@ the DB files excluded), with a record of every instrumented action that ran.  Th
 `list -s --all -p`, `info T` for every task and an immediately following `doit run --continue`
 with a recording reporter (which also keeps the Task objects the dispatcher worked on).
 
+A file dependency that left file_dep and is back (scripted(), every seed): file_dep [f0, f1] / [f0] / [f0, f1], f1 untouched:
+the record still holds the state of f1 saved two executions ago; `info` says the task is not up-to-date because f1 was added
+AND (the repaired loop of get_status, fixC of Model/Status.v) lists f1 among the changed dependencies -- it was not a dependency
+of the last successful execution; true_reasons (the oracle) reads "changed" that way: no saved state, or not in the saved
+'deps:' list, or modified by the checker's rule (C20_info_reasons_changed).
+
 Ignore mark + checker switch (ignore_switch_scripted, every seed, the three backends; ignore_switch_tail on random histories):
 `run; ignore t; SetChecker <the other one>; Ask <ONE status query>` where step `Ask` is a single `list -s ...` / `info T`
 between the two snapshots, immediately followed by the run the letters / the verdict are compared with.  md5 -> timestamp and
@@ -871,7 +877,10 @@ def true_reasons(w, task, rec, merged_file_dep):
             continue
         st = os.stat(p)
         saved = rec.get(p)
-        if saved is None:
+        # "changed": no saved state; or not a dependency of the last successful execution (not in the saved 'deps:' list --
+        # the record may still hold the state an OLDER execution saved for it: save_success never drops it; fixC of
+        # Model/Status.v, C20_info_reasons_changed); or modified by the checker's rule
+        if saved is None or (prev_set is not None and f not in prev_set):
             sets[1].append(f)
         elif w.ck == 'ts':
             if not (isinstance(saved, float) or isinstance(saved, int)) or saved != st.st_mtime:
@@ -1802,6 +1811,13 @@ def scripted():
                                                     ('Run', [], []), ('Ignore', 'T2'), ('Ignore', 'G:a'), ('Forget', '_P'), ('Delete', 5), ('Probe', False),
                                                     ('Run', [], ['T0']), ('SetDef', 1, D([1], utd=[('result_dep', 0)])), ('Touch', 3), ('Probe', False),
                                                     ('ResetDep', 'T1'), ('ForgetAll',), ('Probe', False)]))
+    # a file dependency that left file_dep and is back, untouched (its state saved two executions ago is still in the record):
+    # `info` lists it as added AND as changed; then the other one leaves and comes back after being modified
+    hs.append((dict(), W + [('SetDef', 0, D([0, 1])), ('SetDef', 1, D([2, 3], utd=[T])), ('SetDef', 2, D([0])), ('Run', [], []),
+                            ('SetDef', 0, D([0])), ('SetDef', 1, D([3], utd=[T])), ('Run', [], []), ('Probe', False),
+                            ('SetDef', 0, D([0, 1])), ('SetDef', 1, D([2, 3], utd=[T])), ('SetDef', 2, D([0, 1])), ('Probe', False),
+                            ('Run', [], []), ('Probe', False),
+                            ('SetDef', 0, D([1])), ('Run', [], []), ('Write', 0, 3), ('SetDef', 0, D([0, 1])), ('Probe', False)]))
     # nothing ever ran (no DB at all), and a dangling task_dep for `list --all X`
     hs.append((dict(group=True), [('SetDef', 0, D([0])), ('Probe', True)]))
     hs.append((dict(group=True, dangling=True), W + [('SetDef', 0, D([0])), ('Probe', False)]))
@@ -1954,7 +1970,7 @@ def gen_chain_history(rng, n_ops):
 
 
 RULE = ('scripted histories (calc_dep, missing file_dep with changed dep / false uptodate / missing target, checker switch, ignore, forget, failed run, '
-        'result_dep, empty DB, dangling task_dep) + ignore mark and checker switch before ONE status query and the run (run; ignore t; switch md5 <-> timestamp; '
+        'result_dep, a file dependency that left file_dep and is back (info: added AND changed), empty DB, dangling task_dep) + ignore mark and checker switch before ONE status query and the run (run; ignore t; switch md5 <-> timestamp; '
         'list -s / info of the ignored task, of another task, of everything, of the sub-tasks of an ignored group, of one ignored sub-task; the three backends, every seed; '
         'the same as a tail of random histories) + calc_dep chains / trees (calc tasks whose saved values name file_dep, task_dep and further calc_dep: '
         'depth 1-3, diamonds, sharing, back / self references, repeats, a name that is not a task, a calc task with a calc_dep of its own, values '
